@@ -226,7 +226,7 @@ func combos(items []string, k int) [][]string {
 	return out
 }
 
-func plans(tier string) []mc.Plan {
+func basePlans(tier string) []mc.Plan {
 	var ps []mc.Plan
 	two := func(soft bool, split, wb int) wl.Config {
 		return wl.Config{Soft: soft, Pipe: tr.Options{Cap: -1, TwoStep: true}, SplitSize: split, WriterBuf: wb}
@@ -258,8 +258,8 @@ func plans(tier string) []mc.Plan {
 		}
 		// the remote half-close arrives first, so the local half-close/close is what terminates the
 		// stream; the next RPC is queued ahead of or behind the closing actor
-		if cfg.SplitSize == 2 || tier == "thorough" {
-			for i, c := range [][]string{{"S1", "NX", "CS"}, {"S1", "CS", "NX"}, {"S1", "NX", "CL"}, {"S1", "S2", "NX", "CS"}, {"NX", "CS"}, {"CS", "CA", "NX"}} {
+		{ // (with the default writer buffer the invoke itself is still corked when the actors start)
+			for i, c := range [][]string{{"S1", "NX", "CS"}, {"S1", "CS", "NX"}, {"S1", "NX", "CL"}, {"S1", "S2", "NX", "CS"}, {"NX", "CS"}, {"CS", "CA", "NX"}, {"CS", "NX", "CL"}, {"CS", "CL", "NX"}} {
 				b2 := []int{0, 1}
 				if i == 0 && tier == "thorough" {
 					b2 = []int{0, 1, 2}
@@ -286,6 +286,16 @@ func plans(tier string) []mc.Plan {
 		}
 	}
 	return ps
+}
+
+// plans adds, to every scenario, a twin explored relative to the reversed default schedule (a
+// second reference schedule for the deviation bound).
+func plans(tier string) []mc.Plan {
+	ps := basePlans(tier)
+	if tier == "thorough" {
+		return mc.WithReversed(ps, 1)
+	}
+	return mc.WithReversed(ps, -1)
 }
 
 func init() {
